@@ -26,7 +26,6 @@ WHAT = {
     "C12:failed-handshake-leaves-stale-registry-entry": "after a failed handshake (no other user of the path) the process-wide buffer-manager table still holds an entry for the path",
     "C12:establishment-after-failed-handshake-has-no-mapped-memory": "a new establishment on the path of an earlier failed handshake reports success but the buffer memory is not mapped / does not carry data",
     "C12:establishment-after-failed-handshake-fails": "a new establishment on the path of an earlier failed handshake fails",
-    "C12:server-rejects-newer-client-instead-of-lower-common-version": "a client of a newer protocol generation (it announces 4, 5, ... in ExchangeProtoVersion and otherwise follows the exchange) is turned away by the server instead of being served with the lower common version",
     "C12:client-rejects-newer-server-instead-of-lower-common-version": "a server of a newer protocol generation (it answers the version exchange with 4, 5, ...) makes the generation-3 client fail instead of settling on the lower common version",
     "C12:extract-metadata-panics": "extractShmMetadata panicked on a malformed body instead of returning an error",
     "C12:late-peer-after-timeout-leaks-mapping": "a peer that sends valid metadata after the server's InitializeTimeout: the initialiser goroutine, never cancelled, maps the shared memory after newSession returned the timeout error; nobody unmaps it",
@@ -45,7 +44,7 @@ def frame(f):
 
 
 def config(c):
-    return ("{| mt := %s; unix := %s; qpath := %s; bpath := %s; qobj := 11; bobj := 22; cgen := c_maxSupportProtoVersion; sgen := c_maxSupportProtoVersion |}"
+    return ("{| mt := %s; unix := %s; qpath := %s; bpath := %s; qobj := 11; bobj := 22; sgen := c_maxSupportProtoVersion |}"
             % ("MMemfd" if c["mt"] == 1 else "MFile", "true" if c["unix"] else "false", zl(c["q"] or []), zl(c["b"] or [])))
 
 
